@@ -98,6 +98,12 @@ func New(prop string) *Ctx {
 		os.Exit(2)
 	}
 	c.Scratch = dir
+	// everything this process and its children put into the temp dir goes below the scratch
+	// directory (swagger --keep-spec-order, for one, leaves go-swagger-* files behind)
+	tmp := filepath.Join(dir, "tmp")
+	if os.MkdirAll(tmp, 0o755) == nil {
+		_ = os.Setenv("TMPDIR", tmp)
+	}
 	c.loadKnown()
 	return c
 }
